@@ -14,13 +14,7 @@
 (* the contract.  The harness maps word w to hash.OfString(w), so "+", "#" *)
 (* and "$share" meet the constants wildcard, multiWildcard, share.         *)
 (***************************************************************************)
-EXTENDS Naturals, Sequences, FiniteSets, TLC
-
-CONSTANT Mode          \* "emitter" or "mqtt"
-
-PLUS  == "+"
-HASH  == "#"
-SHARE == "$share"
+EXTENDS Match, TLC
 
 VARIABLES nodes, subsAt, count, S
 tvars == <<nodes, subsAt, count, S>>
@@ -98,32 +92,7 @@ ImplResults(ns, sa, ch, excl) ==
     IN  { direct \cup { pk[g] : g \in live } : pk \in picks }
 
 ---------------------------------------------------------------------------
-(* The property's own words (C01) *)
-
-LevelsMatch(f, ch, n) == \A i \in 1..n : f[i] = ch[i] \/ (i > 1 /\ f[i] = PLUS)
-
-Matches(f, ch) ==
-    IF Mode = "emitter"
-    THEN Len(f) <= Len(ch) /\ LevelsMatch(f, ch, Len(f))
-    ELSE \/ Len(f) = Len(ch) /\ LevelsMatch(f, ch, Len(f))
-         \/ /\ Len(f) >= 2 /\ f[Len(f)] = HASH
-            /\ Len(ch) >= Len(f)
-            /\ LevelsMatch(f, ch, Len(f) - 1)
-
-IsShare(f)  == Len(f) >= 3 /\ f[2] = SHARE
-GroupOf(f)  == <<f[1], f[3]>>
-Eff(f)      == <<f[1]>> \o SubSeq(f, 4, Len(f))
-
-Direct(ss, ch, excl) == { p[2] : p \in { q \in ss : ~IsShare(q[1]) /\ Matches(q[1], ch) } } \ excl
-Members(ss, ch, g, excl) ==
-    { p[2] : p \in { q \in ss : IsShare(q[1]) /\ GroupOf(q[1]) = g /\ Matches(Eff(q[1]), ch) } } \ excl
-
-SpecResults(ss, ch, excl) ==
-    LET groups == { GroupOf(q[1]) : q \in { r \in ss : IsShare(r[1]) } }
-        live   == { g \in groups : Members(ss, ch, g, excl) # {} }
-        picks  == { pk \in [ live -> UNION { Members(ss, ch, g, excl) : g \in live } ] :
-                        \A g \in live : pk[g] \in Members(ss, ch, g, excl) }
-    IN  { Direct(ss, ch, excl) \cup { pk[g] : g \in live } : pk \in picks }
+(* The property's own words (C01): Matches / SpecResults come from Match.tla *)
 
 ---------------------------------------------------------------------------
 (* Invariants *)
